@@ -51,18 +51,35 @@ func cGoid() int {
 
 // version stamp: a template [paddingOctets(a), paddingOctets(b)] stands for version a*50+b
 func cVersionOf(tr TemplateRecord) int {
+	if len(tr.ScopeFieldSpecifiers) == 2 { // options template: the version is in the scope fields, the option field is constant
+		return int(tr.ScopeFieldSpecifiers[0].Length)*50 + int(tr.ScopeFieldSpecifiers[1].Length)
+	}
 	if len(tr.FieldSpecifiers) != 2 {
 		return -1
 	}
 	return int(tr.FieldSpecifiers[0].Length)*50 + int(tr.FieldSpecifiers[1].Length)
 }
 
+// cOptsID: this template id is announced as an OPTIONS template whose versions differ in their scope fields only
+const cOptsID = 257
+
 func cU16(n int) []byte { return []byte{byte(n >> 8), byte(n)} }
 
 func cTplMsg(id, ver int) []byte {
 	a, b := ver/50, ver%50
+	if id == cOptsID {
+		return cOptsMsg(id, a, b)
+	}
 	rec := append(append(cU16(id), cU16(2)...), append(append(cU16(210), cU16(a)...), append(cU16(210), cU16(b)...)...)...)
 	set := append(append(cU16(0), cU16(4+len(rec))...), rec...)
+	msg := append([]byte{0, 9, 0, 1}, make([]byte, 16)...)
+	return append(msg, set...)
+}
+
+func cOptsMsg(id, a, b int) []byte {
+	// NetFlow v9 options template: scope length and option length in octets
+	rec := append(append(append(cU16(id), cU16(8)...), cU16(4)...), append(append(cU16(210), cU16(a)...), append(append(cU16(210), cU16(b)...), append(cU16(210), cU16(1)...)...)...)...)
+	set := append(append(cU16(1), cU16(4+len(rec))...), rec...)
 	msg := append([]byte{0, 9, 0, 1}, make([]byte, 16)...)
 	return append(msg, set...)
 }
@@ -86,7 +103,7 @@ func cObserved(msg *Message, err error) int {
 		return -1
 	}
 	r := msg.DataSets[0]
-	if len(r) != 2 {
+	if len(r) != 2 && len(r) != 3 { // 3: an options template (two scope fields carrying the version, one option)
 		return -1
 	}
 	a, ok1 := r[0].Value.([]byte)
@@ -243,8 +260,14 @@ func TestVerifCacheStress(t *testing.T) {
 					if id == cStableID && !record {
 						ver = 50 // exporters resend their templates unchanged: this one never changes
 					}
+					if record {
+						rec.add(cEvent{G: cGoid(), Ev: "AnnCall", Ver: ver})
+					}
 					if _, err := NewDecoder(e, cTplMsg(id, ver)).Decode(cache); err != nil {
 						t.Errorf("template datagram rejected: %v", err)
+					}
+					if record { // the announcement has been processed: from now on the cache answers with it (or a later one)
+						rec.add(cEvent{G: cGoid(), Ev: "AnnReturn", Ver: ver})
 					}
 				case k < 9: // data set: lookup through the real decode path
 					msg, err := NewDecoder(e, cDataMsg(id)).Decode(cache)
